@@ -4,3 +4,4 @@ import Props.C14
 import Props.C18
 import Props.C10
 import Props.C13
+import Props.C06Gen
